@@ -59,8 +59,8 @@ def build():
             'forall(0, len(params), lambda a: forall(0, len(params), lambda b: implies(a != b and %s and %s and not SUBP(params[a]) and not SUBP(params[b]),'
             ' ctx.argmap[params[a].name].logical_index != ctx.argmap[params[b].name].logical_index)))' % (D('a'), D('b')),
             # no gaps: every slot below the counters is taken by a mapped parameter
-            'forall(1, physical_index, lambda n: exists(0, len(params), lambda j: %s and PHYS(params[j]) and ctx.argmap[params[j].name].index == n))' % D('j'),
-            'forall(1, logical_index, lambda n: exists(0, len(params), lambda j: %s and not SUBP(params[j]) and ctx.argmap[params[j].name].logical_index == n))' % D('j'),
+            'forall(1, physical_index, lambda n: 0 <= slot[n] and slot[n] < len(params) and %s and PHYS(params[slot[n]]) and ctx.argmap[params[slot[n]].name].index == n)' % D('slot[n]'),
+            'forall(1, logical_index, lambda n: 0 <= lslot[n] and lslot[n] < len(params) and %s and not SUBP(params[lslot[n]]) and ctx.argmap[params[lslot[n]].name].logical_index == n)' % D('lslot[n]'),
         ]
     GNAMES = ['forall(0, len(globals), lambda a: forall(0, len(globals), lambda b: implies(a != b, globals[a].name != globals[b].name and globals[a].name != globals[b].name + "present__"'
               ' and globals[a].name + "present__" != globals[b].name + "present__")))',
@@ -74,10 +74,11 @@ def build():
         'forall(0, len(params), lambda a: forall(0, len(params), lambda b: implies(a != b and ELIG(params[a]) and ELIG(params[b]) and not SUBP(params[a]) and not SUBP(params[b]),'
         ' ctx.argmap[params[a].name].logical_index != ctx.argmap[params[b].name].logical_index)))',
         # no gaps: below the slot of a physical parameter every slot is taken by a physical parameter
+        # (ghost witness: slot[n] / lslot[n] is the position in `params` of the parameter that owns physical / logical slot n)
         'forall(0, len(params), lambda j: implies(ELIG(params[j]), forall(1, ctx.argmap[params[j].name].index, lambda n: '
-        'exists(0, len(params), lambda q: ELIG(params[q]) and PHYS(params[q]) and ctx.argmap[params[q].name].index == n))))',
+        '0 <= slot[n] and slot[n] < len(params) and ELIG(params[slot[n]]) and PHYS(params[slot[n]]) and ctx.argmap[params[slot[n]].name].index == n)))',
         'forall(0, len(params), lambda j: implies(ELIG(params[j]) and not SUBP(params[j]), forall(1, ctx.argmap[params[j].name].logical_index, lambda n: '
-        'exists(0, len(params), lambda q: ELIG(params[q]) and not SUBP(params[q]) and ctx.argmap[params[q].name].logical_index == n))))']
+        '0 <= lslot[n] and lslot[n] < len(params) and ELIG(params[lslot[n]]) and not SUBP(params[lslot[n]]) and ctx.argmap[params[lslot[n]].name].logical_index == n)))']
     GDONE = lambda hi: [
         'forall(0, %s, lambda a: globals[a].name in ctx.argmap and ctx.argmap[globals[a].name].logical_index == -1'
         ' and implies(globals[a].has_present_arg, (globals[a].name + "present__") in ctx.argmap and ctx.argmap[globals[a].name + "present__"].index == ctx.argmap[globals[a].name].index + 1))' % hi,
@@ -87,7 +88,10 @@ def build():
         # ... and the globals' slots (with companions) are strictly increasing: no two of them collide
         'forall(0, %s, lambda a: forall(0, %s, lambda b: implies(a < b, ctx.argmap[globals[a].name].index + (1 if globals[a].has_present_arg else 0) < ctx.argmap[globals[b].name].index)))' % (hi, hi)]
     w.contract(CLAUSES, 'populate_argmap', params={'params': 'Seq[Param]', 'globals': 'Seq[Global]', 'ctx': 'Ctx'}, returns='none',
-        requires=NAMES + GNAMES + ['len(ctx.argmap) == 0'], modifies=['Ctx.argmap'],
+        requires=NAMES + GNAMES + ['len(ctx.argmap) == 0'], modifies=['Ctx.argmap'], ghost={'slot': 'Fun[int,int]', 'lslot': 'Fun[int,int]'},
+        hints=dict(ghost_out=['slot', 'lslot']),
+        ghost_after={'ctx.argmap[param.name] = pgast.Param(index=physical_index, logical_index=logical_index, required=param.required)':
+                     [('slot', 'fun_set(slot, physical_index, i)'), ('lslot', 'fun_set(lslot, logical_index, i)')]},
         ensures=PFACTS + GDONE('len(globals)'),
         loops={0: dict(fingerprint='for map_extra in (False, True)', index='k', invariant=pinv('k', '0')),
                1: dict(fingerprint='for param in params', index='i', invariant=pinv('k', 'i')),
@@ -95,4 +99,51 @@ def build():
                    'physical_index >= 1',
                    'forall(0, len(params), lambda j: implies(ELIG(params[j]), ctx.argmap[params[j].name].index <= physical_index and implies(PHYS(params[j]), ctx.argmap[params[j].name].index < physical_index)))',
                    'forall(0, g, lambda a: ctx.argmap[globals[a].name].index + (1 if globals[a].has_present_arg else 0) < physical_index)'])})
+    # ---- A': the number written into the SQL text for a parameter reference is the argmap entry
+    w.rec('IrParameter', [('name', 'str'), ('required', 'bool'), ('typeref', 'Obj')], IRAST, 'Parameter')
+    w.ufunc('pnum', ['Obj'], 'int')        # the PostgreSQL parameter number an expression tree refers to (through type casts)
+    w.ufunc('is_paramref', ['Obj'], 'bool')
+    w.trusted.append('pgast node constructors are outside reach: ParamRef(number=n) is an object r with pnum(r) == n; TypeCast(arg=a) refers to the same parameter as a')
+    w.ext_funcs['pgast.ParamRef'] = dict(params={'number': 'int', 'nullable': 'bool'}, returns='Obj', ensures=['pnum(result) == number', 'is_paramref(result)'])
+    w.ext_funcs['pgast.TypeCast'] = dict(params={'arg': 'Obj', 'type_name': 'Obj'}, returns='Obj', ensures=['pnum(result) == pnum(arg)', 'is_paramref(result) == is_paramref(arg)'])
+    w.ext_funcs['pgast.TypeName'] = dict(params={'name': 'Obj'}, returns='Obj')
+    w.ext_funcs['pgast.ColumnRef'] = dict(params={'name': 'Obj', 'nullable': 'bool'}, returns='Obj', ensures=['not is_paramref(result)'])
+    w.ext_funcs['pg_types.pg_type_from_ir_typeref'] = dict(params={'t': 'Obj'}, returns='Obj')
+    w.ext_funcs['irtyputils.needs_custom_serialization'] = dict(params={'t': 'Obj'}, returns='bool')
+    w.ext_funcs['irtyputils.is_array'] = dict(params={'t': 'Obj'}, returns='bool')
+    w.ext_funcs['relgen.process_encoded_param'] = dict(params={'param': 'Param', 'ctx': 'Ctx'}, returns='Obj', ensures=['not is_paramref(result)'])
+    w.classes['Obj'].update({'subtypes': 'Seq[Obj]', 'real_base_type': 'Obj', 'custom_sql_serialization': 'Opt[str]'})
+    w.contract(EXPR, 'compile_Parameter', params={'expr': 'IrParameter', 'ctx': 'Ctx'}, returns='Obj',
+        requires=['forall(0, len(ctx.env.query_params), lambda j: implies(ELIG(ctx.env.query_params[j]), ctx.env.query_params[j].name in ctx.argmap))'],
+        # whenever a PostgreSQL parameter reference is emitted, its number is the physical index the argmap reports for that name
+        ensures=['implies(is_paramref(result), expr.name in ctx.argmap and pnum(result) == ctx.argmap[expr.name].index)'],
+        raises={'KeyError': dict(only_if='not (expr.name in ctx.argmap)'), 'AssertionError': {}, 'IndexError': {}},
+        hints=dict(var_types={'params': 'Seq[Param]'}))
+    # ---- B: aliases
+    w.refclass('Counter', {'counts': 'Fun[str,int]'}, COMMON, 'AliasGenerator')
+    w.trusted.append('collections.defaultdict(int) modelled as a total map str -> int (missing keys read 0)')
+    w.contract(COMMON, 'SimpleCounter.nextval', params={'self': 'Counter', 'name': 'str'}, returns='int', modifies=['Counter.counts'],
+        ensures=['result == old(self.counts[name]) + 1', 'self.counts[name] == result', 'forall(str, lambda k: implies(k != name, self.counts[k] == old(self.counts[k])))',
+                 'heap_same_except("Counter.counts", self)'])
+    w.contract(COMMON, 'AliasGenerator.get', params={'self': 'Counter', 'hint': 'str'}, ghost={'H': 'str'}, returns='str', modifies=['Counter.counts'],
+        hints=dict(ghost_out=['H']), ghost_after={'idx = self.nextval(hint)': [('H', 'hint')]},
+        # the alias is a function of the counter state and the hint only:  <normalised hint>~<count of that hint + 1>
+        ensures=['result == H + "~" + int_to_str(old(self.counts)[H] + 1)', 'self.counts[H] == old(self.counts)[H] + 1',
+                 'forall(str, lambda k: implies(k != H, self.counts[k] == old(self.counts[k])))',
+                 # the normalised hint: "v" for the empty hint, else the hint without a trailing ~digits (it never ends in ~digits itself)
+                 'implies(hint == "", H == "v")', 'str_prefixof(H, hint) or hint == ""'])
     return w
+
+def scenarios(tier, seed, repo_root, outdir):
+    """bounded stand-in: the real populate_argmap on every small parameter / global list; the real AliasGenerator on random hint sequences"""
+    import json, subprocess
+    here = os.path.dirname(os.path.abspath(__file__)); root = os.path.dirname(os.path.dirname(here))
+    out = os.path.join(outdir, 'scenario_out.json')
+    if os.path.exists(out): os.unlink(out)
+    env = dict(os.environ); env['PYTHONPATH'] = '%s:%s' % (os.path.join(root, 'stubs'), repo_root); env['VERIF_REPO'] = repo_root
+    p = subprocess.run(['/venv/bin/python', os.path.join(here, 'scenario.py'), str(seed), '3' if tier == 'quick' else '4', out], capture_output=True, text=True, env=env, cwd=repo_root, timeout=3000)
+    if not os.path.exists(out): raise RuntimeError('scenario runner failed: ' + (p.stderr or p.stdout)[-2000:])
+    r = json.load(open(out))
+    return dict(evaluations=r['argmaps'] + r['alias_runs'], failure=r['failure'],
+                label='%d (parameter list, globals, naming mode) combinations through the real populate_argmap; %d hint sequences through two real AliasGenerators (bounded)' % (r['argmaps'], r['alias_runs']),
+                clause='physical slots form 1..N, logical slots 1..L, ordinary before extracted parameters; aliases deterministic and pairwise distinct')
